@@ -8,8 +8,8 @@ import (
 	"strconv"
 	"sync/atomic"
 
-	"github.com/openGemini/openGemini/lib/config"
 	"github.com/influxdata/influxdb/toml"
+	"github.com/openGemini/openGemini/lib/config"
 )
 
 // C04, scenarios on the snapshot / flush / drop seams.
@@ -88,10 +88,20 @@ func c04SnapshotTick(v *vShard) func() {
 	}
 }
 
+// c04SnapSeam: the acquisitions of shard.snapshotLock (force-flush flag, table switch, recycling of the snapshot
+// table, the reader's and the writer's view) and the publication of flushed files.
+var c04SnapSeam = []string{
+	"engine.(*shard).enableForceFlush", "engine.(*shard).disableForceFlush", "engine.(*shard).shouldSnapshot",
+	"engine.(*tsstoreImpl).writeSnapshot", "engine.(*shard).cloneReaders", "engine.(*shard).writeRows",
+	"immutable.(*tsImmTableImpl).AddBothTSSPFiles", "immutable.(*tsImmTableImpl).makeTSSPFiles",
+	"immutable.(*MmsTables).GetBothFilesRef",
+}
+
 func init() {
 	c04Scenarios = append(c04Scenarios,
 		// background snapshot tick || ForceFlush || reader. Preload: one flushed file and a non-empty memtable.
 		c04Scenario{Name: "S6_snap_flush_read", Preload: []string{"Wa", "F", "We"}, Setup: c04SnapSetup,
+			Seam: &c04Seam{Funcs: c04SnapSeam, FreeQuick: 1, FreeDeep: 2},
 			Threads: func(v *vShard, l *c04Log) map[string]func() {
 				return map[string]func(){
 					"1flush":  func() { v.Flush() },
@@ -101,6 +111,7 @@ func init() {
 			}},
 		// the same with a writer: what the two flushes leave behind is judged by the dump after the join
 		c04Scenario{Name: "S7_snap_flush_write", Preload: []string{"Wa", "F", "We"}, Setup: c04SnapSetup,
+			Seam: &c04Seam{Funcs: c04SnapSeam, FreeQuick: 1, FreeDeep: 2},
 			Threads: func(v *vShard, l *c04Log) map[string]func() {
 				return map[string]func(){
 					"1flush":  func() { v.Flush() },
